@@ -191,6 +191,22 @@ def impl_observe(text, tmp, full_reader=False):
                 obs["full"] = {"fs": rr.fs, "nc": rr.nc, "nsync": rr.nsync, "ns": rr.ns, "type": rr.type,
                                "version": rr.version, "s2v": np.array(rr.sample2volts),
                                "range": np.array(rr.range_volts)}
+                if rr.type == "nidq" and 1 <= rr.nc <= 64:
+                    # open a 4-sample binary next to the meta and read it back in volts
+                    b = p.with_suffix(".bin")
+                    raw = (np.arange(4 * rr.nc, dtype=np.int16).reshape(4, rr.nc) * 37 - 50).astype(np.int16)
+                    try:
+                        raw.tofile(b)
+                        r2 = spikeglx.Reader(b, ignore_warnings=True)
+                        got = np.asarray(r2[0:4, :])
+                        want = raw.astype(np.float32) * np.asarray(obs["full"]["s2v"], dtype=np.float32)
+                        obs["full_read"] = bool(got.shape == want.shape and np.allclose(got, want, rtol=1e-6, atol=0)
+                                                and r2.nc == rr.nc and r2.ns == 4 and r2.type == "nidq")
+                        r2.close()
+                    except ERRS as e:
+                        obs["full_read"] = "exc:" + type(e).__name__
+                    finally:
+                        b.unlink(missing_ok=True)
             except ERRS as e:
                 obs["full"] = "exc:" + type(e).__name__
             finally:
@@ -974,7 +990,12 @@ def run(ctx):
                 ctx.fail(what, desc, {"kind": kind, "subset_prefix": bool(it["subset_prefix"]), "probe": it["kind"]})
             if c.get("full") and it["kind"] == "nidq" and isinstance(obs.get("full"), str):
                 ctx.fail("Reader(meta file) of a nidq stream raises %s" % obs["full"][4:], desc,
-                         {"kind": "reader_init", "probe": "nidq", "era3A": bool(it.get("era3A"))})
+                         {"kind": "reader_init", "probe": "nidq"})
+            if c.get("full") and it["kind"] == "nidq" and obs.get("full_read", True) is not True:
+                ctx.fail("Reader on a nidq binary: read() %s" % (
+                    "raises " + obs["full_read"][4:] if isinstance(obs["full_read"], str)
+                    else "does not return raw * sample2volts / wrong nc, ns or type"), desc,
+                    {"kind": "reader_read", "probe": "nidq"})
             dist["nidq_3A_era"] = dist.get("nidq_3A_era", 0) + bool(it.get("era3A"))
             if c.get("full"):
                 dist["full_reader"] += bool(guard_case(ctx, desc, "Reader oracle", check_full_reader, obs, ctx, desc))
